@@ -316,7 +316,8 @@ func e4Run(c *Ctx, p *core.Program, sc *e4Scope, suffix string) *e4Stats {
 		}
 		sort.Strings(stale)
 		for _, k := range stale {
-			r.Fail(sc.RInfra, "stale-ledger|"+k, "-", "ledger entry matches no undischarged obligation any more (the code changed: re-read it and update the ledger)")
+			// Listed, not judged: an unused justification proves nothing wrong about the code (the obligation it covered was removed, moved or became provable); a moved obligation shows up as an unproven one under its new key.
+			r.Info(sc.RInfra, "stale-ledger|"+k, "-", "ledger entry matches no undischarged obligation any more (the code changed: re-read it and update the ledger)")
 		}
 		if len(stale) == 0 {
 			r.OK(sc.RInfra, "ledger-hygiene", "-", sprintf("all %d ledger entries match a live residual obligation", len(sc.Ledger)))
